@@ -876,6 +876,7 @@ fn main() {
             "C12" => vec![("modified_without_hook", j(&format!("[{ok_run},{{\"status_is\":\"modified\"}},{{\"hooks_eq\":0}}]"))), ("modified_without_valid_map", j(&format!("[{ok_run},{{\"status_is\":\"modified\"}},{{\"map_invalid\":true}}]"))),
                           ("hook_without_modified", j(&format!("[{ok_run},{{\"status_is\":\"notmodified\"}},{{\"hooks_ne\":0}}]"))),
                           ("result_without_status", j(&format!("[{ok_run},{{\"status_is\":\"\"}}]"))),
+                          ("result_with_other_status", j(&format!("[{ok_run},{{\"status_is_not\":\"\"}},{{\"status_is_not\":\"modified\"}},{{\"status_is_not\":\"notmodified\"}}]"))),
                           ("not_modified_carries_code", j(&format!("[{ok_run},{{\"status_is\":\"notmodified\"}},{{\"code_is_empty\":false}}]"))),
                           ("modified_without_prologue_definitions", j(&format!("[{ok_run},{{\"status_is\":\"modified\"}},{{\"prologue_expected\":true}},{{\"hook_missing_in_prologue\":true}}]")))],
             "C05" => vec![("unconfigured_hook_referenced", j(&format!("[{ok_run},{{\"unconfigured_hook_referenced\":true}}]"))),
